@@ -110,17 +110,24 @@ def V(cls, detail):
     return {"class": cls, "key": "C19:" + cls, "detail": detail}
 
 
-def do_op(w, plan, op, datas):
+def do_op(w, plan, op, datas, persist=False):
     """returns a comparable outcome dict"""
     k = op["op"]
     if k == "j":
         import shutil
-        shutil.rmtree(w.path("OUT"), ignore_errors=True)
-        w.mkdir("OUT")
-        r = w.run(argv_of(plan, op), order=op.get("order"))
+        # in the long-lived history the output directory keeps what earlier --json operations wrote (disk state is
+        # history too); the pristine twin converts into an empty directory
+        outdir = "OUT" if persist else "OUTF"
+        if not persist:
+            shutil.rmtree(w.path(outdir), ignore_errors=True)
+        w.mkdir(outdir)
+        argv = [a.replace("@/OUT", "@/" + outdir) for a in argv_of(plan, op)]
+        r = w.run(argv, order=op.get("order"))
         snap = w.snapshot()
-        files = {p: w.read(p).decode("utf-8", "replace") for p in sorted(snap) if p.startswith("OUT/") and snap[p][0] == "f"}
-        shutil.rmtree(w.path("OUT"), ignore_errors=True)
+        files = {p[len(outdir) + 1:]: w.read(p).decode("utf-8", "replace") for p in sorted(snap)
+                 if p.startswith(outdir + "/") and snap[p][0] == "f"}
+        if not persist:
+            shutil.rmtree(w.path(outdir), ignore_errors=True)
         return {"stdout": json.dumps(files, sort_keys=True), "exit": r.exit, "exc": r.exc,
                 "traceback": "Traceback (most recent call last)" in r.stderr, "stderr": r.stderr, "nevents": len(r.events)}
     if k != "pp":
@@ -174,7 +181,7 @@ def execute(plan):
         faulted = set()
         for i, op in enumerate(plan["ops"]):
             mark = len(host.calls)
-            got = do_op(w, plan, op, datas)
+            got = do_op(w, plan, op, datas, persist=True)
             calls = host.calls[mark:]
             want = w.in_pristine_modules(lambda: do_op(w, plan, op, datas))
             del host.calls[mark + len(calls):]
@@ -208,6 +215,10 @@ def execute(plan):
                 if not (want["traceback"] or want["exc"]):
                     vio.append(V("history-dependent-failure", "%s fails only after the history: %s; %s" % (argv_of(plan, op), got["exc"] or got["stderr"][-300:], ctx)))
                 continue
+            if op["op"] == "j" and not got["exc"] and not want["exc"]:
+                gf, wf = json.loads(got["stdout"]), json.loads(want["stdout"])
+                # files left by earlier conversions of PELs this invocation does not select are not its business
+                got = dict(got, stdout=json.dumps({k2: gf.get(k2) for k2 in wf}, sort_keys=True))
             if (got["stdout"], got["exit"], got["exc"]) != (want["stdout"], want["exit"], want["exc"]):
                 a, b = got["stdout"] or "", want["stdout"] or ""
                 pos = next((j for j in range(min(len(a), len(b))) if a[j] != b[j]), min(len(a), len(b)))
